@@ -88,6 +88,20 @@ func getFilteredCodeSetIfNeeded(ctx *RuntimeContext, codeSet *OpcodeSet) (*Opcod
 	return queryCodeSet, nil
 }
 
+// CompileToGetCodeSetForInterface returns the program for the dynamic value of
+// an interface member. Under a field query the member's own sub-query selects
+// the value's fields (no sub-query: the whole value), not the root query.
+func CompileToGetCodeSetForInterface(ctx *RuntimeContext, typeptr uintptr, query *FieldQuery) (*OpcodeSet, error) {
+	if (ctx.Option.Flag & FieldQueryOption) == 0 {
+		return CompileToGetCodeSet(ctx, typeptr)
+	}
+	rootCtx := ctx.Option.Context
+	ctx.Option.Context = SetFieldQueryToContext(rootCtx, query)
+	codeSet, err := CompileToGetCodeSet(ctx, typeptr)
+	ctx.Option.Context = rootCtx
+	return codeSet, err
+}
+
 type Compiler struct {
 	structTypeToCode map[uintptr]*StructCode
 }
